@@ -55,7 +55,7 @@ EXPECTED_PROBES = {
             'crash_none', 'crash_m', 'crash_cb', 'liveness_checked'],
 }
 BUDGET = {
-    'C06': {'quick': {'n': 48, 'max_s': 150, 'chunk': 1}, 'thorough': {'n': 1600, 'max_s': 3000, 'chunk': 1}},
+    'C06': {'quick': {'n': 128, 'max_s': 150, 'chunk': 1}, 'thorough': {'n': 1600, 'max_s': 3000, 'chunk': 1}},
     'C05': {'quick': {'n': 6400, 'max_s': 150, 'chunk': 20}, 'thorough': {'n': 120000, 'max_s': 3000, 'chunk': 25}},
 }
 DOCUMENTED_STOPS = ('nswp', 'm', 'e', 'e_vld', 'cb', 'func', 'conv')
